@@ -18,7 +18,7 @@ from typing import Any, Dict, List, Optional, Tuple
 
 from ..cfg import cfg_of, ExcTypes
 from ..consteval import ConstEval, Unknown
-from ..flow import Sym, fpaths, attr_effects
+from ..flow import Sym, fpaths, attr_effects, allfacts
 from ..model import FuncInfo, attr_chain, norm, walk_no_nested
 from ..report import Checker
 from .forward import eval_response_call, eval_response_constant
@@ -85,7 +85,7 @@ def run(ch: Checker) -> None:
         ch.paths += 1
         if p.exit_kind != 'return':
             continue
-        fd = dict(p.facts())
+        fd = allfacts(p)
         if fd.get('no_cl') is not True and fd.get('has_transfer_encoding') is not True:
             n += 1
             stores = [st for i, st in p.stmts() if isinstance(st, ast.Assign) and isinstance(st.targets[0], ast.Subscript) and ce.try_eval(bhr.module, st.targets[0].slice) == b'Content-Length']
